@@ -183,7 +183,7 @@ def nontrivial(case, mr):
 
 
 def _fields(r):
-    return dict(f.split('=', 1) for f in r.split(' ## ')[0].split(' ') if '=' in f)
+    return dict(f.split('=', 1) for f in r.split('##')[0].split(' ') if '=' in f)
 
 
 def spec_check(case, ir, mr):
@@ -202,7 +202,7 @@ def spec_check(case, ir, mr):
             lo, hi = (-(1 << (bits - 1)), (1 << (bits - 1)) - 1) if sg else (0, (1 << bits) - 1)
             if lo <= v <= hi and not (text.startswith(b'-') and not sg):
                 want = 'V:%0*x' % (bits // 4, v & ((1 << bits) - 1))
-                if ir.split(' ## ')[0].strip() != want:
+                if ir.split('##')[0].strip() != want:
                     return 'stringTo of the decimal text of %d gives %s' % (v, ir)
         return None
     pat, sep, psize, gsize, fill = int(w[3], 16), int(w[4], 16), int(w[5]), int(w[6]), int(w[7], 16)
